@@ -2,6 +2,7 @@ package main
 
 import (
 	"fmt"
+	"go/token"
 	"go/types"
 	"os"
 	"sort"
@@ -206,7 +207,52 @@ func (t *FnTrans) selectInstr(x *ssa.Select) {
 			lo = "(- 1)"
 		}
 		t.assume(and(app("<=", lo, tv.Tup[0].S), app("<", tv.Tup[0].S, fmt.Sprint(len(x.States)))))
+		// channels declared "closeonly" (type spec) are never sent on: a receive from one is ready iff it is closed
+		cc := ""
+		var readyClosed []string
+		for i, st := range x.States {
+			if st.Dir != types.RecvOnly || !t.closeOnlyChan(st.Chan) {
+				continue
+			}
+			if cc == "" {
+				cc = t.comp("CH.closed", "(Array Int Bool)")
+			}
+			cl := app("select", t.get(cc), t.term(st.Chan))
+			t.assume(implies(eq(tv.Tup[0].S, fmt.Sprint(i)), cl))
+			readyClosed = append(readyClosed, cl)
+		}
+		if !x.Blocking {
+			for _, cl := range readyClosed {
+				t.assume(implies(eq(tv.Tup[0].S, "(- 1)"), not(cl))) // default is taken only when no case is ready
+			}
+		}
 	}
+}
+
+// closeOnlyChan: is v a load of a struct field that its type spec declares `closeonly <field>`?
+func (t *FnTrans) closeOnlyChan(v ssa.Value) bool {
+	u, ok := v.(*ssa.UnOp)
+	if !ok || u.Op != token.MUL {
+		return false
+	}
+	fa, ok := u.X.(*ssa.FieldAddr)
+	if !ok {
+		return false
+	}
+	pt, ok := t.resolve(fa.X.Type()).Underlying().(*types.Pointer)
+	if !ok {
+		return false
+	}
+	nt, ok := t.resolve(pt.Elem()).(*types.Named)
+	if !ok {
+		return false
+	}
+	st, ok := nt.Underlying().(*types.Struct)
+	if !ok {
+		return false
+	}
+	ts := t.eng.specs.Types[typeName(nt.Origin())]
+	return ts != nil && ts.CloseOnly[st.Field(fa.Field).Name()]
 }
 
 func (t *FnTrans) goStmt(x *ssa.Go) {
